@@ -265,12 +265,16 @@ def run_check(pid, tier, seed, replay=None):
     import translate
     problems = []      # broken obligations (translation / build / audit)
     foreign_notes = [] # translation problems at code sites no theorem of this property depends on
+    fallback_notes = [] # sites of this property tied differentially instead of by retranslation
     try:
         tr = translate.translate()
         # a code site that left the translated subset concerns the properties whose companion theorems / differential
         # tests use that site (their Lean modules stop building as well); for every other property it is a note
         import gencheck
         mine = set(gencheck.GROUPS.get(pid, []))
+        for name, why in tr.get('fallbacks', []):
+            (fallback_notes if name in mine else foreign_notes).append(
+                'code site %s could not be retranslated (%s): the definition last translated from the source is kept and tied to the current source by the differential test of generated definitions on this run' % (name, why))
         for p in tr['problems']:
             m = re.match(r'py2lean (\w+):', p)
             if m and m.group(1) not in mine:
@@ -374,7 +378,7 @@ def run_check(pid, tier, seed, replay=None):
             exhaustive=False,
             input_distribution=res.distribution,
             broken_obligations=problems,
-            notes=res.notes + ['translation note (site not used by this property): ' + n for n in foreign_notes],
+            notes=res.notes + ['translation: ' + n for n in fallback_notes] + ['translation note (site not used by this property): ' + n for n in foreign_notes],
         ),
         assumptions=getattr(prop, 'ASSUMPTIONS', []),
         wall_s=round(wall, 2),
@@ -385,5 +389,6 @@ def run_check(pid, tier, seed, replay=None):
         print(l)
     print('%s %s tier=%s seed=%d theorems=%d cases=%d distinct=%d diffs=%d oracle_failures=%d known=%d wall=%.1fs' % (
         'FAIL' if violations else 'OK', pid, tier, seed, len(thms), res.evaluations, len(res.nontrivial),
-        len(res.diffs), len(res.failures), len(known_hit), wall))
+        len(res.diffs), len(res.failures), len(known_hit), wall) +
+        (' retied-differentially=%d' % len(fallback_notes) if fallback_notes else ''))
     return 1 if violations else 0
